@@ -411,8 +411,8 @@ def c12_checks(tier, seed):
     except Exception:
         res["checker_errors"].append(f"hook {PID}.D crashed: {traceback.format_exc()[-900:]}")
     for name, fn, n, what in (
-        ("I.pen-inputs-independent-of-optimizeCFF", _i, 10 if not thorough else 200, "OutlineOTFCompiler: optimizeCFF normalisation (all documented values) and recorded pen constructor arguments / drawing calls equal for optimizeCFF in {0,1,2,False,True}, generated UFOs x roundTolerance {None,0,0.001,0.25,0.5}"),
-        ("O.same-drawing-all-combinations", _o, 3 if not thorough else 40, "observer: 18 option combinations per generated UFO: same RecordingPen operations, advances, layout tables; requested CFF flavour; NotImplementedError exactly for compreffor+CFF2"),
+        ("I.pen-inputs-independent-of-optimizeCFF", _i, 30 if not thorough else 200, "OutlineOTFCompiler: optimizeCFF normalisation (all documented values) and recorded pen constructor arguments / drawing calls equal for optimizeCFF in {0,1,2,False,True}, generated UFOs x roundTolerance {None,0,0.001,0.25,0.5}"),
+        ("O.same-drawing-all-combinations", _o, 10 if not thorough else 60, "observer: 18 option combinations per generated UFO: same RecordingPen operations, advances, layout tables; requested CFF flavour; NotImplementedError exactly for compreffor+CFF2"),
     ):
         rng = random.Random(seed * 104729 + len(name))
         try:
